@@ -49,13 +49,16 @@ makes model and implementation differ (the model's waits do not cover the code).
 exactly when the watchdog fired. -/
 def step (_ : Unit) (op impl : String) : Unit × DrvOut :=
   match words op with
-  | "stress" :: _ | "hls" :: _ =>
+  | "stress" :: _ | "hls" :: _ | "metrics" :: _ | "rtmp" :: _ =>
     if impl == "skipped" then ((), { model := "-" })
     else if impl.startsWith "crash" then
-      -- F-C40b (session closed before its initialization finished) is fixed in /repo (6317767): no KNOWN branch
+      -- F-C40b (session closed before its initialization finished, fixed in 6317767) and F-C40c (metrics
+      -- endpoint with a nil path manager, fixed in fbbecad): no KNOWN branch
       let chain := (impl.drop 6).toString.splitOn "<"
       let reg := if chain.contains "stream.Stream.RemoveReader" && chain.contains "hls.session.close2"
-        then "regression of F-C40b: " else ""
+        then "regression of F-C40b: "
+        else if chain.contains "metrics.Metrics.onMetrics" then "regression of F-C40c (nil path manager in /metrics): "
+        else ""
       ((), { model := "done", spec := "FAIL " ++ reg ++ "the server process panicked in " ++ (impl.drop 6).toString })
     else if impl.startsWith "hang" then
       let chains := (impl.drop 5).toString.splitOn ","
